@@ -304,6 +304,11 @@ int errno_of(const std::string& name)
     return it == m.end() ? EIO : it->second;
 }
 
+// A failed *read* is an input failure only when it hits an input file (the schema, an include target). Reading a
+// file below the output root - a program that compares what is there with what it is about to write - may fail
+// without the statement demanding anything: the caller may treat the file as different and rewrite it. Such a
+// fault is soft: either ending is allowed, and exit 0 still implies complete, byte-identical files.
+void note_read_failure(const std::string& path, const std::string& what);
 void note_hard(const std::string& what, bool output_side)
 {
     g.fired_hard.push_back(what);
@@ -311,6 +316,17 @@ void note_hard(const std::string& what, bool output_side)
         g.fired_hard_output = true;
     else
         g.fired_hard_input = true;
+}
+
+void note_read_failure(const std::string& path, const std::string& what)
+{
+    if(path.rfind("/sim/in/", 0) == 0 || path == "/sim/in")
+        note_hard(what, false);
+    else
+    {
+        g.fired_soft.push_back(what + " (not an input file)");
+        sim::stats().count("probe.read_fault_on_a_file_that_is_not_an_input");
+    }
 }
 
 ssize_t raw_write(int fd, const void* p, size_t n)
@@ -414,14 +430,20 @@ static int sim_open_fd(const std::string& abs, bool wr, bool trunc, bool append)
     FaultSpec* f = on_call(wr ? K_OPENW : K_OPENR, abs);
     if(under_condition(abs))
     {
-        note_hard(std::string("open(") + abs + ") environment condition errno " + std::to_string(g.cond_errno), wr);
+        if(wr)
+            note_hard(std::string("open(") + abs + ") environment condition errno " + std::to_string(g.cond_errno), true);
+        else
+            note_read_failure(abs, std::string("open(") + abs + ") environment condition errno " + std::to_string(g.cond_errno));
         sim::stats().count("fault.fired.condition.open");
         errno = g.cond_errno;
         return -1;
     }
     if(yanked())
     {
-        note_hard(std::string("open(") + abs + ") after yank", wr);
+        if(wr)
+            note_hard(std::string("open(") + abs + ") after yank", true);
+        else
+            note_read_failure(abs, std::string("open(") + abs + ") after yank");
         sim::stats().count("fault.fired.yank.open");
         errno = EIO;
         return -1;
@@ -430,7 +452,10 @@ static int sim_open_fd(const std::string& abs, bool wr, bool trunc, bool append)
     {
         f->fired = true;
         sim::stats().count(std::string("fault.fired.") + kKindName[f->kind] + "." + f->outcome);
-        note_hard(std::string("open(") + abs + ") " + f->outcome, wr);
+        if(wr)
+            note_hard(std::string("open(") + abs + ") " + f->outcome, true);
+        else
+            note_read_failure(abs, std::string("open(") + abs + ") " + f->outcome);
         errno = errno_of(f->outcome);
         return -1;
     }
@@ -567,13 +592,13 @@ ssize_t read(int fd, void* buf, size_t n)
     FaultSpec* f = on_call(K_READ, of.path, (long)n);
     if(of.is_dir)
     {
-        note_hard("read(" + of.path + ") natural EISDIR", false);
+        note_read_failure(of.path, "read(" + of.path + ") natural EISDIR");
         errno = EISDIR;
         return -1;
     }
     if(yanked())
     {
-        note_hard("read(" + of.path + ") after yank", false);
+        note_read_failure(of.path, "read(" + of.path + ") after yank");
         errno = EIO;
         return -1;
     }
@@ -583,7 +608,7 @@ ssize_t read(int fd, void* buf, size_t n)
         sim::stats().count("fault.fired.read." + f->outcome.substr(0, f->outcome.find(':')));
         if(f->outcome.rfind("ERR:", 0) == 0)
         {
-            note_hard("read(" + of.path + ") " + f->outcome, false);
+            note_read_failure(of.path, "read(" + of.path + ") " + f->outcome);
             errno = errno_of(f->outcome.substr(4));
             return -1;
         }
